@@ -14,7 +14,7 @@ def prepare_ws(prop_id, crate, extra_files=None):
     """Copy kani_ws/<crate> into build/<prop>/kani, instantiate Cargo.toml, copy /repo's lock."""
     src = os.path.join(VERIF, "kani_ws", crate)
     # scratch runs (VERIF_REPO set) get their own build directory so they never disturb a run on /repo
-    dst = os.path.join(VERIF, "build", prop_id if REPO == "/repo" else "scratch_" + prop_id, "kani")
+    dst = os.path.join(VERIF, "build", prop_id if REPO == "/repo" else "scratch_" + prop_id, "kani-" + crate)
     os.makedirs(dst, exist_ok=True)
     # refresh sources (keep target/)
     for name in os.listdir(src):
